@@ -46,7 +46,7 @@ def r1(run):
             for a in F.appends_in(b):
                 sites.append((b, a))
                 run.touch(b)
-    run.exact("Store::append sites in the generators module", len(sites), 2)
+    run.floor("Store::append sites in the generators module", len(sites), 2)
     for (b, a) in sites:
         fn = facts.enclosing_fn(b)
         if fn == HELPER:
@@ -186,10 +186,34 @@ def r3b(run):
             x = strip(e)
             is_err = (x[0] == "agg" and x[1].get("variant") == "Err") or (x[0] == "call" and x[1].fn.endswith("from_residual"))
             if is_err and (q.reaches(hb, ins[0].bb, rb) or rb == ins[0].bb):
+                # ... unless the registration is rolled back first (the record this invocation wrote is removed again)
+                undo = [c.bb for c in hb.calls() if c.bb in hb.live_blocks() and c.fn.endswith(("::remove", "::remove_entry")) and "HashMap" in c.fn and "GeneratorTask" in c.fnx
+                        and q.dominated(hb, c.bb, via_blocks=[ins[0].bb])]
+                if undo and q.dominated(hb, rb, via_blocks=undo):
+                    continue
                 late_err.append(hb.blocks[rb]["term"]["sp"])
         run.ob(fn + "|refusal-precedes-registration", not late_err, ins[0].sp,
                "no Err return is reachable after the registry write: a spawn that is refused (it becomes .spawn.error) leaves the running generator's record untouched (%s)" % late_err,
                reason="running-generator-replaced")
+    # the registry is what restarts a generator after its stop: a record leaves it only as the roll-back of this very registration
+    # (behind the insert of the same invocation), never on the refusal / error path of some other spawn
+    REMOVERS = ("::remove", "::remove_entry", "::clear", "::retain", "::drain", "::extract_if")
+    n_mut = 0
+    for b2 in run.facts.all_bodies():
+        if not b2.def_.startswith(MOD + "::"):
+            continue
+        own_ins = [c.bb for c in b2.calls() if c.bb in b2.live_blocks() and c.fn.endswith("::insert") and "HashMap" in c.fn and "GeneratorTask" in c.fnx]
+        for c in b2.calls():
+            if c.bb not in b2.live_blocks() or "GeneratorTask" not in c.fnx or not ("HashMap" in c.fn or "hash::map::" in c.fn):
+                continue
+            n_mut += 1
+            if c.fn.endswith(REMOVERS) or ("Entry" in c.fn and c.fn.endswith(("::remove", "::remove_entry", "::insert"))):
+                run.touch(b2)
+                run.ob(fn + "|registry|record-removed-only-as-own-rollback|" + run.facts.enclosing_fn(b2).split("::")[-1] + "|" + c.fn.split("::")[-1],
+                       bool(own_ins) and q.dominated(b2, c.bb, via_blocks=own_ins), c.sp,
+                       "a generator record is taken out of the registry only behind the registration of the same spawn (otherwise a refused or failed "
+                       "spawn for a running name would end that generator's restarts)", reason="running-generator-replaced")
+    run.floor("operations on the generator registry in the generators module", n_mut, 3, hb.sp)
     member_tests = 0
     for bb, si in hb.switches():
         if any(cc.fn.endswith(("::contains_key", "::get", "::entry", "::insert", "::get_mut")) and "HashMap" in cc.fn for cc in q.calls_in(si["cond"])):
